@@ -291,6 +291,8 @@ def gen_route(rng, sd, stream):
         route['nh'] = 'self'
     elif stream == 'extnh' and afi == 1:
         route['nh'] = rand_ip6(rng)
+    elif stream == 'cross' and afi == 2:
+        route['nh'] = rand_ip4(rng)  # an IPv4 next hop for an IPv6-family route
     else:
         route['nh'] = rand_ip4(rng) if afi == 1 else rand_ip6(rng)
     route['attrs'] = gen_attrs(rng, stream)
@@ -434,6 +436,21 @@ def multicast_in_plain_field():
     raise RuntimeError('UpdateCollection.messages: the IPv4/MP classification is not one of the two known forms')
 
 
+def v4_nexthop_mapped(sess):
+    """How does MPNLRICollection._encode_nexthop send the IPv4 next hop of an IPv6-family route?  Behaviour
+    probe, fail closed: 4 octets as they are (False) or IPv4-mapped ::ffff:a.b.c.d (True)."""
+    from exabgp.bgp.message.update.nlri.collection import MPNLRICollection
+    from exabgp.protocol.family import AFI, SAFI
+    from exabgp.protocol.ip import IP
+
+    out = bytes(MPNLRICollection([], {}, AFI.ipv6, SAFI.unicast)._encode_nexthop(IP.from_string('1.2.3.4'), (AFI.ipv6, SAFI.unicast), sess.neg))
+    if out == bytes([1, 2, 3, 4]):
+        return False
+    if out == bytes(10) + b'\xff\xff' + bytes([1, 2, 3, 4]):
+        return True
+    raise RuntimeError(f'_encode_nexthop(1.2.3.4) for ipv6 unicast gives {out.hex()}: neither of the two modelled forms')
+
+
 # ------------------------------------------------------------------------------- abstract values for Coq
 
 
@@ -476,7 +493,7 @@ def coq_item(kind, v):
     if kind == 'large-community':
         return f'ILarge {zlist([(a << 64) | (b << 32) | c for a, b, c in v])}'
     if kind == 'attribute':
-        return f'IGeneric {v[0]} {v[1]} {zlist(v[2])}'
+        return f'IGeneric {v[0]} {v[1]} {common.zbytes(v[2])}'
     raise ValueError(kind)
 
 
@@ -512,6 +529,10 @@ def expected(sd, route):
     addr = int.from_bytes(bytes(route['ip'][:size]), 'big') if size else 0
     local = list(ipaddress.ip_address(sd['local']).packed)
     nh = local if route['nh'] == 'self' else route['nh']
+    if route['afi'] == 2 and len(nh) == 4:
+        # the next hop of an IPv6 family is an IPv6 address (RFC 2545 3, RFC 4659 3.2.1): the IPv4 address the
+        # operator wrote can only be carried IPv4-mapped (RFC 4798 2, RFC 4659 3.2.1.2)
+        nh = [0] * 10 + [255, 255] + list(nh)
     given = dict(route['attrs'])
     ibgp = sd['local_as'] == sd['peer_as']
     attrs = []  # (key, coq text)
@@ -541,7 +562,7 @@ def expected(sd, route):
         attrs.append((32, f'SLarge {zlist(sorted(set((a << 64) | (b << 32) | c for a, b, c in given["large-community"])))}'))
     for kind, v in route['attrs']:
         if kind == 'attribute':
-            attrs.append((1000 + v[0], f'SOther {v[1] & 0xEF} {v[0]} {zlist(v[2])}'))
+            attrs.append((1000 + v[0], f'SOther {v[1] & 0xEF} {v[0]} {common.zbytes(v[2])}'))
     attrs.sort(key=lambda t: t[0])
     asn4 = sd['peer_asn4']
     raw2 = None if asn4 else [[ty, [a if a <= 65535 else AS_TRANS for a in asns]] for ty, asns in path]
@@ -577,11 +598,11 @@ Definition ozeqb (a b : option Z) : bool :=
 Fixpoint bad {A} (f : A -> bool) (l : list A) (i : nat) : list nat :=
   match l with [] => [] | c :: l' => if f c then bad f l' (S i) else i :: bad f l' (S i) end.
 (* ---- correspondence: (multicast-in-plain-field flag, session, withdraw?, route, implementation bytes) *)
-Definition model_of (c : bool * sess * bool * route * option (list Z)) : option (list Z) :=
-  match c with (mc, s, w, r, _) =>
-    if w then encode_withdraw mc s (r_nlri r) (items_of s r) else encode_announce mc s r end.
-Definition corr_ok (c : bool * sess * bool * route * option (list Z)) : bool :=
-  match c with (_, _, _, _, impl) => oleqb (model_of c) impl end.
+Definition model_of (c : bool * bool * sess * bool * route * option (list Z)) : option (list Z) :=
+  match c with (mc, v4m, s, w, r, _) =>
+    if w then encode_withdraw mc s (r_nlri r) (items_of s r) else encode_announce mc v4m s r end.
+Definition corr_ok (c : bool * bool * sess * bool * route * option (list Z)) : bool :=
+  match c with (_, _, _, _, _, impl) => oleqb (model_of c) impl end.
 (* ---- property oracle (glue): expected semantic value, canonical forms *)
 Record expect := mkE { e_wd : bool; e_fam : Z * Z; e_nlri : rfc_route; e_nh : list Z; e_attrs : list sattr;
                        e_2byte : bool; e_large : bool }.
@@ -696,7 +717,8 @@ def shrink(route):
 
 
 def evaluate(cases, mc, tag):
-    """cases: list of dict(sd, sess, route, text, impl).  -> (ran, corr_bad, verdicts{index: code}, logs)"""
+    """cases: list of dict(sd, sess, route, text, impl); mc = (multicast in plain field, v4 next hop mapped).
+    -> (ran, corr_bad, verdicts{index: code}, logs)"""
     live = [k for k, c in enumerate(cases) if c['impl'][0] == 'ok']
     weight = lambda k: 400 + sum(len(b) for b in cases[k]['impl'][1]) * 2 + len(cases[k]['text'])  # noqa: E731
     shards, cur, cur_w = [], [], 0
@@ -721,13 +743,13 @@ def evaluate(cases, mc, tag):
             b = body_of(c)
             if b is not None:
                 b_defs.append(f'Definition b{k} : list Z := {common.zbytes(b)}.')
-            m_items.append(f'({"true" if mc else "false"}, {coq_sess(c["sd"], c["sess"].seen, s4, s6)}, '
+            m_items.append(f'({"true" if mc[0] else "false"}, {"true" if mc[1] else "false"}, {coq_sess(c["sd"], c["sess"].seen, s4, s6)}, '
                            f'{"true" if c["route"]["withdraw"] else "false"}, {coq_route(c["route"])}, '
                            f'{"None" if b is None else f"(Some b{k})"})')
             if b is not None:
                 j_items.append(f'({coq_rsess(c["sd"])}, {coq_expect(c["sd"], c["route"])}, b{k})')
         return ('\n'.join(b_defs) + '\n'
-                'Definition mcases : list (bool * sess * bool * route * option (list Z)) := [' + ';\n'.join(m_items) + '].\n'
+                'Definition mcases : list (bool * bool * sess * bool * route * option (list Z)) := [' + ';\n'.join(m_items) + '].\n'
                 'Eval vm_compute in (bad corr_ok mcases 0).\n'
                 'Definition jcases : list (rsess * expect * list Z) := [' + ';\n'.join(j_items) + '].\n'
                 'Eval vm_compute in (judge_all jcases).\n')
@@ -761,8 +783,10 @@ def sig_of(case, code):
     r = case['route']
     if code in (2, 4) and r['afi'] == 1 and r['safi'] == 2:
         return 'ipv4-multicast-sent-as-unicast'
-    if code == 1 and r['afi'] == 1 and r['safi'] == 2 and list((1, 2)) in case['sd']['addpath'] != (list((1, 1)) in case['sd']['addpath']):
-        return 'ipv4-multicast-sent-as-unicast'
+    if code in (1, 3) and r['afi'] == 1 and r['safi'] == 2 and ([1, 2] in case['sd']['addpath']) != ([1, 1] in case['sd']['addpath']):
+        return 'ipv4-multicast-sent-as-unicast'  # read with the ADD-PATH setting of ipv4 unicast
+    if r['afi'] == 2 and r['nh'] != 'self' and len(r['nh']) == 4 and not r['withdraw']:
+        return 'ipv6-route-ipv4-next-hop-sent-as-4-octets'
     base = VERDICT.get(code, f'verdict-{code}')
     fam = f'{AFI_NAME[r["afi"]]}-{SAFI_NAME[r["safi"]]}'
     return f'{base}:{"withdraw" if r["withdraw"] else "announce"}:{fam}'
@@ -787,7 +811,8 @@ def check(tier, seed):
     ]
     run.assumptions = [
         'route domain: ipv4/ipv6 x unicast, multicast (by address range), nlri-mpls, mpls-vpn; next hop of the route family '
-        '(or "self" on a session whose transport has the route family); every attribute keyword at most once; generic attribute '
+        '(or "self" on a session whose transport has the route family), an IPv6 next hop for an IPv4 route only when RFC 8950 is '
+        'negotiated, an IPv4 next hop for an IPv6 route (expected IPv4-mapped); every attribute keyword at most once; generic attribute '
         'codes outside the codes ExaBGP knows; community halves <= 65535; link-local next hop capability off',
         'reading decisions: LOCAL_PREF absent on eBGP even when written; COMMUNITY/EXTENDED/LARGE compared as sets; adjacent '
         'AS_SEQUENCE segments compared joined (a sequence > 255 must be cut); attribute order not compared; a NEXT_HOP attribute '
@@ -805,6 +830,15 @@ def check(tier, seed):
         mc = True
         run.obligation('UpdateCollection.messages IPv4/MP classification is one of the two modelled forms', False, str(exc))
     run.coverage['multicast_in_plain_field'] = mc
+    try:
+        v4m = v4_nexthop_mapped(session(gen_session(random.Random(0), session_kinds()[0], 0)))
+        run.obligation('MPNLRICollection._encode_nexthop sends an IPv4 next hop of an IPv6 family in one of the two modelled forms', True,
+                       f'IPv4-mapped = {v4m}')
+    except Exception as exc:
+        v4m = False
+        run.obligation('MPNLRICollection._encode_nexthop sends an IPv4 next hop of an IPv6 family in one of the two modelled forms', False, str(exc))
+    run.coverage['ipv4_next_hop_of_ipv6_route_sent_mapped'] = v4m
+    mc = (mc, v4m)
 
     kinds = session_kinds()
     n_sessions = 24 if quick else 96
@@ -825,7 +859,7 @@ def check(tier, seed):
                    not bad_sessions, json.dumps(bad_sessions[:2])[:1500])
 
     n_routes = 1000 if quick else 40000
-    streams = ['mixed'] * 6 + ['plain', 'aspath', 'aspath', 'big', 'extnh']
+    streams = ['mixed'] * 6 + ['plain', 'aspath', 'aspath', 'big', 'extnh', 'cross']
     cases = []
     for i in range(n_routes):
         sd = sds[rng.randrange(len(sds))]
@@ -845,7 +879,36 @@ def check(tier, seed):
             r['attrs'] = [('as-path', [[2, [70000 + j for j in range(n)]]])]
             r['withdraw'] = False
             cases.append(make_case(sd, r))
+    # boundary: the UPDATE is exactly as long as the session allows, one octet less, one and two more (nothing sent)
+    near_limit = 0
+    for sd in [sd for sd in sds if sd['msg'] == 4096][:4]:
+        for wd in (False, True):
+            r = gen_route(rng, sd, 'plain')
+            r['withdraw'] = wd
+            r['attrs'] = [('attribute', [153, 0xC0, [7] * 600])]
+            probe = make_case(sd, r)
+            if probe['impl'][0] != 'ok' or len(probe['impl'][1]) != 1:
+                continue
+            if wd and r['safi'] in (1, 2):
+                continue  # no attribute is sent with such a withdraw: its size does not depend on the attribute
+            slack = sd['msg'] - 19 - len(probe['impl'][1][0])
+            for d in (-1, 0, 1, 2):
+                r2 = dict(r, attrs=[('attribute', [153, 0xC0, [7] * (600 + slack + d)])], stream='big')
+                cases.append(make_case(sd, r2))
+                near_limit += 1
     t_impl = time.time() - t0
+
+    # observation, not judged (the property quantifies over negotiated sessions; whether a route whose next hop needs
+    # a capability the session lacks should be sent at all is C18's question): IPv6 next hop for an IPv4 route, no RFC 8950
+    try:
+        sd0 = next(sd for sd in sds if not sd['extnh'])
+        r0 = {'afi': 1, 'safi': 1, 'ip': [10, 0, 0, 0], 'mask': 24, 'pid': None, 'labels': [], 'rd': None, 'stream': 'observe',
+              'nh': [0x20, 1, 0xd, 0xb8] + [0] * 11 + [1], 'attrs': [], 'withdraw': False}
+        c0 = make_case(sd0, r0)
+        run.notes.append('observation (not judged): "' + c0['text'] + '" on a session without the RFC 8950 capability -> '
+                         + (('sent: ' + c0['impl'][1][0].hex()) if c0['impl'][0] == 'ok' and c0['impl'][1] else str(c0['impl'])[:200]))
+    except StopIteration:
+        pass
 
     # outcomes of the implementation
     hist = collections.Counter()
@@ -870,7 +933,8 @@ def check(tier, seed):
         run.notes.append('correspondence mismatch: ' + json.dumps(replay_of(cases[k]), default=str)[:1200])
 
     # nothing sent for a route that fits easily
-    silent = [k for k, c in enumerate(cases) if c['impl'][0] == 'ok' and len(c['impl'][1]) != 1 and c['route']['stream'] != 'big']
+    silent = [k for k, c in enumerate(cases) if c['impl'][0] == 'ok' and len(c['impl'][1]) != 1
+              and c['route']['stream'] not in ('big', 'aspath') and len(c['text']) < 1200]
     for k in silent[:3]:
         run.fail_case('route-not-sent-or-split', 'a single small route did not yield exactly one UPDATE', replay_of(cases[k]))
 
@@ -915,7 +979,9 @@ def check(tier, seed):
         'families': dict(fam_hist), 'attribute_keywords': dict(attr_hist), 'session_kinds': dict(sess_hist),
         'withdraw_cases': sum(1 for c in cases if c['route']['withdraw']),
         'next_hop_self': sum(1 for c in cases if c['route']['nh'] == 'self'),
+        'ipv6_route_with_ipv4_next_hop': sum(1 for c in cases if c['route']['afi'] == 2 and c['route']['nh'] != 'self' and len(c['route']['nh']) == 4),
         'large_asn_to_2byte_peer': sum(1 for c in cases if not c['sd']['peer_asn4'] and expected(c['sd'], c['route'])['large_asn']),
+        'near_message_size_limit': near_limit,
         'extended_length_attributes': sum(1 for c in cases for k, v in c['route']['attrs'] if k == 'attribute' and len(v[2]) > 255),
         'timing_s': {'implementation': round(t_impl, 1), 'coq_eval': round(t_eval, 1)},
     })
@@ -930,10 +996,10 @@ def replay(path):
     case = data.get('case', data)
     run = Run('C01', 'replay', 0)
     common.standard_build(run, ['T10'])
-    mc = multicast_in_plain_field()
     route = case['route']
     route['attrs'] = [tuple(a) for a in route['attrs']]
     c = make_case(case['session'], route)
+    mc = (multicast_in_plain_field(), v4_nexthop_mapped(c['sess']))
     _, corr_bad, verdicts, _ = evaluate([c], mc, 'c01_replay')
     print(json.dumps({'text': c['text'], 'impl': [b.hex() for b in c['impl'][1]] if c['impl'][0] == 'ok' else list(c['impl']),
                       'correspondence_ok': not corr_bad, 'verdict': VERDICT.get(verdicts.get(0), verdicts.get(0))}, indent=1))
